@@ -1,2 +1,1186 @@
-// stub created by the lead so that the workspace always loads; replace it with the check
-fn main() {}
+//! C15 — cached answers expire on time and TTLs only count down.
+//!
+//! E-STATE on the REAL `hickory_resolver::ResponseCache` (explicit `now: Instant`): breadth-first
+//! search over histories of insert(q, r) / get(q) / clear / clear_query(q) / advance(dt), every
+//! history replayed on a fresh cache, every `get` (the ones in the history and a fixed look-ahead
+//! probe sequence after every transition) judged by the reference model `vref::cache`, which is
+//! written from the property statement:
+//!
+//! * get may always miss; a hit must be the LAST cacheable result inserted for that query,
+//! * not later than L after its insertion (L = smallest per-type clamped TTL among the records of
+//!   the query type or CNAME, clamped to the bounds of the query type; negative: negative TTL
+//!   clamped to the negative bounds, the minimum if the answer carries none),
+//! * every reported TTL = per-type clamped stored TTL - whole seconds elapsed, floored at 0
+//!   (TTLs inside negative answers: received value - whole seconds elapsed), never increasing
+//!   between refreshes,
+//! * an error that is not a negative answer is never returned.
+//!
+//! State matching: canonical key = per query (last cacheable result, age in ms capped just above
+//! its lifetime). The key argument is tested, not assumed: (i) every transition's look-ahead
+//! observations are digested and equal keys must give equal digests (same-key / different-history
+//! differential), (ii) a matching-free run over ALL op sequences up to depth 5 of a small grid
+//! must reach exactly the BFS's key set, with the same verdicts.
+
+use std::collections::{HashMap, HashSet};
+use std::str::FromStr;
+use std::sync::atomic::{AtomicU64, Ordering};
+use std::sync::{Arc, LazyLock, Mutex};
+use std::time::{Duration, Instant};
+
+use hickory_net::{DnsError, ForwardNSData, NetError, NoRecords};
+use hickory_proto::op::{Message, OpCode, Query, ResponseCode};
+use hickory_proto::rr::rdata::{A, AAAA, CNAME, MX, NS, SOA, TXT};
+use hickory_proto::rr::{Name, RData, Record, RecordType};
+use hickory_resolver::{ResponseCache, TtlConfig};
+use serde_json::{json, Value};
+use vcore::{bfs, catch, Ctx, Local};
+use vref::cache::{self as rc, Bounds, Config, Model, Observation, Stored, Verdict};
+
+fn n(s: &str) -> Name {
+    Name::from_str(s).unwrap()
+}
+
+/// All `now` values are BASE + virtual offset. BASE lies far in the future of the real clock so
+/// that moka's own (real-time) expiry never fires during a run: which entry is served is then
+/// decided by hickory's `is_current(now)` alone and every run is deterministic.
+static BASE: LazyLock<Instant> = LazyLock::new(|| Instant::now() + Duration::from_secs(30 * 86_400));
+
+fn at(ms: u64) -> Instant {
+    *BASE + Duration::from_millis(ms)
+}
+
+// ------------------------------------------------------------------------------------------
+// alphabets
+
+#[derive(Clone, Debug)]
+struct QSpec {
+    query: Query,
+    code: u16,
+}
+
+fn queries() -> Vec<QSpec> {
+    vec![
+        QSpec { query: Query::new(n("n1.example."), RecordType::A), code: 1 },
+        QSpec { query: Query::new(n("n1.example."), RecordType::AAAA), code: 28 },
+        QSpec { query: Query::new(n("n2.example."), RecordType::TXT), code: 16 },
+    ]
+}
+
+#[derive(Clone, Copy, Debug, PartialEq)]
+enum Kind {
+    Q,
+    Cname,
+    Ns,
+    Glue,
+    Mx,
+}
+
+#[derive(Clone, Copy, Debug, PartialEq)]
+enum Sec {
+    An,
+    Au,
+    Ad,
+}
+
+#[derive(Clone, Debug)]
+enum Shape {
+    /// records as (section, kind, ttl); listed section by section
+    Pos(Vec<(Sec, Kind, u32)>),
+    Neg { nttl: Option<u32>, soa: Option<u32>, auth: Vec<u32>, ns: Vec<(u32, Vec<u32>)>, nx: bool },
+    Err(&'static str),
+}
+
+fn shapes() -> Vec<(&'static str, Shape)> {
+    use Kind::*;
+    use Sec::*;
+    vec![
+        ("q0", Shape::Pos(vec![(An, Q, 0)])),
+        ("q1", Shape::Pos(vec![(An, Q, 1)])),
+        ("q2", Shape::Pos(vec![(An, Q, 2)])),
+        ("q5", Shape::Pos(vec![(An, Q, 5)])),
+        ("q1+q5", Shape::Pos(vec![(An, Q, 1), (An, Q, 5)])),
+        ("q5+q2", Shape::Pos(vec![(An, Q, 5), (An, Q, 2)])),
+        ("cname1+q5", Shape::Pos(vec![(An, Cname, 1), (An, Q, 5)])),
+        ("cname5+q2", Shape::Pos(vec![(An, Cname, 5), (An, Q, 2)])),
+        ("cname2", Shape::Pos(vec![(An, Cname, 2)])),
+        ("q2+ns7+glue1", Shape::Pos(vec![(An, Q, 2), (Au, Ns, 7), (Ad, Glue, 1)])),
+        ("q5+ns1+glue7", Shape::Pos(vec![(An, Q, 5), (Au, Ns, 1), (Ad, Glue, 7)])),
+        ("mx2", Shape::Pos(vec![(An, Mx, 2)])),
+        ("mx1+addq5", Shape::Pos(vec![(An, Mx, 1), (Ad, Q, 5)])),
+        ("neg-none", Shape::Neg { nttl: None, soa: None, auth: vec![], ns: vec![], nx: false }),
+        ("neg0", Shape::Neg { nttl: Some(0), soa: Some(0), auth: vec![], ns: vec![], nx: true }),
+        ("neg1-full", Shape::Neg { nttl: Some(1), soa: Some(5), auth: vec![2], ns: vec![(7, vec![1])], nx: false }),
+        ("neg3", Shape::Neg { nttl: Some(3), soa: Some(3), auth: vec![], ns: vec![], nx: true }),
+        ("neg5-ns", Shape::Neg { nttl: Some(5), soa: Some(1), auth: vec![], ns: vec![(1, vec![]), (2, vec![0, 5])], nx: false }),
+        ("err-timeout", Shape::Err("timeout")),
+        ("err-io", Shape::Err("io")),
+        ("err-busy", Shape::Err("busy")),
+        ("err-noconn", Shape::Err("noconn")),
+        ("err-msg", Shape::Err("msg")),
+        ("err-message", Shape::Err("message")),
+        ("err-case", Shape::Err("case")),
+        ("err-servfail", Shape::Err("servfail")),
+        ("err-refused", Shape::Err("refused")),
+    ]
+}
+
+/// Far-future boundary shapes (default maximum of one day, u32 limits); only used by the far grid.
+fn far_shapes() -> Vec<(&'static str, Shape)> {
+    use Kind::*;
+    use Sec::*;
+    vec![
+        ("far-q86399", Shape::Pos(vec![(An, Q, 86_399)])),
+        ("far-q86400", Shape::Pos(vec![(An, Q, 86_400)])),
+        ("far-q86401", Shape::Pos(vec![(An, Q, 86_401)])),
+        ("far-qmax+cname100000", Shape::Pos(vec![(An, Cname, 100_000), (An, Q, u32::MAX)])),
+        ("far-neg86401", Shape::Neg { nttl: Some(86_401), soa: Some(86_401), auth: vec![], ns: vec![], nx: true }),
+        ("far-negmax", Shape::Neg { nttl: Some(u32::MAX), soa: Some(u32::MAX), auth: vec![u32::MAX], ns: vec![], nx: false }),
+    ]
+}
+
+fn kind_code(k: Kind, q: &QSpec) -> u16 {
+    match k {
+        Kind::Q => q.code,
+        Kind::Cname => 5,
+        Kind::Ns => 2,
+        Kind::Glue => 1,
+        Kind::Mx => 15,
+    }
+}
+
+fn build_record(k: Kind, ttl: u32, q: &QSpec, sid: usize, pos: usize, has_cname: bool) -> Record {
+    let s = sid as u8;
+    let p = pos as u8;
+    match k {
+        Kind::Q => {
+            let owner = if has_cname { n(&format!("t{sid}.example.")) } else { q.query.name.clone() };
+            let data = match q.code {
+                1 => RData::A(A::new(10, s, p, 1)),
+                28 => RData::AAAA(AAAA::new(0x2001, 0xdb8, 0, 0, 0, 0, s as u16, p as u16)),
+                _ => RData::TXT(TXT::new(vec![format!("r{sid}-{pos}")])),
+            };
+            Record::from_rdata(owner, ttl, data)
+        }
+        Kind::Cname => Record::from_rdata(q.query.name.clone(), ttl, RData::CNAME(CNAME(n(&format!("t{sid}.example."))))),
+        Kind::Ns => Record::from_rdata(n("example."), ttl, RData::NS(NS(n(&format!("ns{sid}.example."))))),
+        Kind::Glue => Record::from_rdata(n(&format!("ns{sid}.example.")), ttl, RData::A(A::new(192, 0, 2, s))),
+        Kind::Mx => Record::from_rdata(q.query.name.clone(), ttl, RData::MX(MX::new(10, n(&format!("mx{sid}.example."))))),
+    }
+}
+
+fn build_result(shape: &Shape, q: &QSpec, sid: usize) -> (Result<Message, NetError>, Stored) {
+    match shape {
+        Shape::Pos(recs) => {
+            let has_cname = recs.iter().any(|r| r.1 == Kind::Cname);
+            let mut m = Message::response(0, OpCode::Query);
+            m.add_query(q.query.clone());
+            let mut stored = vec![];
+            for sec in [Sec::An, Sec::Au, Sec::Ad] {
+                for (pos, (s, k, ttl)) in recs.iter().enumerate() {
+                    if *s != sec {
+                        continue;
+                    }
+                    let r = build_record(*k, *ttl, q, sid, pos, has_cname);
+                    stored.push((kind_code(*k, q), *ttl));
+                    match sec {
+                        Sec::An => m.add_answer(r),
+                        Sec::Au => m.add_authority(r),
+                        Sec::Ad => m.add_additional(r),
+                    };
+                }
+            }
+            (Ok(m), Stored::Positive { records: stored })
+        }
+        Shape::Neg { nttl, soa, auth, ns, nx } => {
+            let mut nr = NoRecords::new(q.query.clone(), if *nx { ResponseCode::NXDomain } else { ResponseCode::NoError });
+            let mut embedded = vec![];
+            nr.negative_ttl = *nttl;
+            if let Some(t) = soa {
+                nr.soa = Some(Box::new(Record::from_rdata(
+                    n("example."),
+                    *t,
+                    SOA::new(n("ns.example."), n("h.example."), sid as u32, 1, 1, 1, 1),
+                )));
+                embedded.push(*t);
+            }
+            if !auth.is_empty() {
+                let v: Vec<Record> = auth.iter().enumerate().map(|(i, t)| build_record(Kind::Ns, *t, q, sid * 8 + i, i, false)).collect();
+                embedded.extend(auth.iter().copied());
+                nr.authorities = Some(Arc::from(v));
+            }
+            if !ns.is_empty() {
+                let v: Vec<ForwardNSData> = ns
+                    .iter()
+                    .enumerate()
+                    .map(|(i, (t, glue))| {
+                        embedded.push(*t);
+                        embedded.extend(glue.iter().copied());
+                        ForwardNSData {
+                            ns: build_record(Kind::Ns, *t, q, sid * 8 + i, i, false),
+                            glue: Arc::from(
+                                glue.iter().enumerate().map(|(g, gt)| build_record(Kind::Glue, *gt, q, sid * 8 + g, g, false)).collect::<Vec<_>>(),
+                            ),
+                        }
+                    })
+                    .collect();
+                nr.ns = Some(Arc::from(v));
+            }
+            (Err(NetError::from(nr)), Stored::Negative { negative_ttl: *nttl, embedded })
+        }
+        Shape::Err(kind) => {
+            let e = match *kind {
+                "timeout" => NetError::Timeout,
+                "io" => NetError::from(std::io::Error::new(std::io::ErrorKind::ConnectionReset, "reset")),
+                "busy" => NetError::Busy,
+                "noconn" => NetError::NoConnections,
+                "msg" => NetError::Msg("upstream failure".to_string()),
+                "message" => NetError::Message("static failure"),
+                "case" => NetError::QueryCaseMismatch,
+                "servfail" => NetError::Dns(DnsError::ResponseCode(ResponseCode::ServFail)),
+                "refused" => NetError::Dns(DnsError::ResponseCode(ResponseCode::Refused)),
+                other => panic!("unknown error kind {other}"),
+            };
+            (Err(e), Stored::Transient)
+        }
+    }
+}
+
+// ------------------------------------------------------------------------------------------
+// content identification (which inserted result does a returned entry belong to?)
+
+#[derive(Clone, Debug)]
+enum Content {
+    Pos(Message),
+    Neg(NoRecords),
+    None,
+}
+
+fn split_pos(m: &Message) -> (Message, Vec<u32>) {
+    let mut m = m.clone();
+    let mut ttls = Vec::with_capacity(4);
+    for sec in [&mut m.answers, &mut m.authorities, &mut m.additionals] {
+        for r in sec.iter_mut() {
+            ttls.push(r.ttl);
+            r.ttl = 0;
+        }
+    }
+    (m, ttls)
+}
+
+fn split_neg(nr: &NoRecords) -> (NoRecords, Option<u32>, Vec<u32>) {
+    let mut z = nr.clone();
+    let mut ttls = vec![];
+    let nttl = z.negative_ttl;
+    if z.negative_ttl.is_some() {
+        z.negative_ttl = Some(0);
+    }
+    if let Some(soa) = &mut z.soa {
+        ttls.push(soa.ttl);
+        soa.ttl = 0;
+    }
+    if let Some(a) = z.authorities.take() {
+        let v: Vec<Record> = a
+            .iter()
+            .cloned()
+            .map(|mut r| {
+                ttls.push(r.ttl);
+                r.ttl = 0;
+                r
+            })
+            .collect();
+        z.authorities = Some(Arc::from(v));
+    }
+    if let Some(nsl) = z.ns.take() {
+        let v: Vec<ForwardNSData> = nsl
+            .iter()
+            .cloned()
+            .map(|mut d| {
+                ttls.push(d.ns.ttl);
+                d.ns.ttl = 0;
+                let g: Vec<Record> = d
+                    .glue
+                    .iter()
+                    .cloned()
+                    .map(|mut r| {
+                        ttls.push(r.ttl);
+                        r.ttl = 0;
+                        r
+                    })
+                    .collect();
+                d.glue = Arc::from(g);
+                d
+            })
+            .collect();
+        z.ns = Some(Arc::from(v));
+    }
+    (z, nttl, ttls)
+}
+
+fn neg_eq(a: &NoRecords, b: &NoRecords) -> bool {
+    let ns_eq = match (&a.ns, &b.ns) {
+        (None, None) => true,
+        (Some(x), Some(y)) => x.len() == y.len() && x.iter().zip(y.iter()).all(|(p, q)| p.ns == q.ns && p.glue[..] == q.glue[..]),
+        _ => false,
+    };
+    let au_eq = match (&a.authorities, &b.authorities) {
+        (None, None) => true,
+        (Some(x), Some(y)) => x[..] == y[..],
+        _ => false,
+    };
+    a.query == b.query && a.soa == b.soa && a.negative_ttl == b.negative_ttl && a.response_code == b.response_code && ns_eq && au_eq
+}
+
+fn content_of(res: &Result<Message, NetError>) -> Content {
+    match res {
+        Ok(m) => Content::Pos(split_pos(m).0),
+        Err(NetError::Dns(DnsError::NoRecordsFound(nr))) => Content::Neg(split_neg(nr).0),
+        Err(_) => Content::None,
+    }
+}
+
+// ------------------------------------------------------------------------------------------
+// configurations
+
+#[derive(Clone, Debug)]
+struct CfgSpec {
+    default: Bounds,
+    by_type: Vec<(&'static str, u16, Bounds)>,
+}
+
+fn type_code_of(name: &str) -> (&'static str, u16) {
+    match name {
+        "A" => ("A", 1),
+        "NS" => ("NS", 2),
+        "CNAME" => ("CNAME", 5),
+        "MX" => ("MX", 15),
+        "TXT" => ("TXT", 16),
+        "AAAA" => ("AAAA", 28),
+        other => panic!("type {other} not in the configuration alphabet"),
+    }
+}
+
+fn bounds_json(b: &Bounds) -> Value {
+    let mut m = serde_json::Map::new();
+    if let Some(v) = b.pos_min {
+        m.insert("positive_min_ttl".into(), json!(v));
+    }
+    if let Some(v) = b.pos_max {
+        m.insert("positive_max_ttl".into(), json!(v));
+    }
+    if let Some(v) = b.neg_min {
+        m.insert("negative_min_ttl".into(), json!(v));
+    }
+    if let Some(v) = b.neg_max {
+        m.insert("negative_max_ttl".into(), json!(v));
+    }
+    Value::Object(m)
+}
+
+fn bounds_from_json(v: &Value) -> Bounds {
+    Bounds {
+        pos_min: v["positive_min_ttl"].as_u64(),
+        pos_max: v["positive_max_ttl"].as_u64(),
+        neg_min: v["negative_min_ttl"].as_u64(),
+        neg_max: v["negative_max_ttl"].as_u64(),
+    }
+}
+
+impl CfgSpec {
+    fn to_json(&self) -> Value {
+        let mut m = serde_json::Map::new();
+        m.insert("default".into(), bounds_json(&self.default));
+        for (name, _, b) in &self.by_type {
+            m.insert((*name).into(), bounds_json(b));
+        }
+        Value::Object(m)
+    }
+    fn from_json(v: &Value) -> CfgSpec {
+        let mut c = CfgSpec { default: Bounds::default(), by_type: vec![] };
+        for (k, b) in v.as_object().expect("cfg object") {
+            if k == "default" {
+                c.default = bounds_from_json(b);
+            } else {
+                let (name, code) = type_code_of(k);
+                c.by_type.push((name, code, bounds_from_json(b)));
+            }
+        }
+        c
+    }
+    fn model(&self) -> Config {
+        Config { default: self.default, by_type: self.by_type.iter().map(|(_, c, b)| (*c, *b)).collect() }
+    }
+    fn real(&self) -> TtlConfig {
+        serde_json::from_value(self.to_json()).expect("TtlConfig from JSON")
+    }
+}
+
+fn pos(min: Option<u64>, max: Option<u64>) -> Bounds {
+    Bounds { pos_min: min, pos_max: max, ..Default::default() }
+}
+fn neg(min: Option<u64>, max: Option<u64>) -> Bounds {
+    Bounds { neg_min: min, neg_max: max, ..Default::default() }
+}
+
+/// The configuration alphabet (all with min <= max): unset, global positive, global negative,
+/// both, per-type overrides (A, AAAA, TXT as query types; CNAME, NS, MX as record types), and
+/// default + override combinations. Bound values from {unset, 0, 1, 2, 3}.
+fn configs() -> Vec<CfgSpec> {
+    let mut v = vec![CfgSpec { default: Bounds::default(), by_type: vec![] }];
+    let s = Some;
+    for (mn, mx) in [
+        (s(0), None), (s(1), None), (s(2), None), (s(3), None),
+        (None, s(0)), (None, s(1)), (None, s(2)), (None, s(3)),
+        (s(1), s(2)), (s(2), s(2)), (s(0), s(0)), (s(3), s(3)), (s(1), s(3)),
+    ] {
+        v.push(CfgSpec { default: pos(mn, mx), by_type: vec![] });
+    }
+    for (mn, mx) in [
+        (s(1), None), (s(2), None), (s(3), None),
+        (None, s(0)), (None, s(1)), (None, s(2)),
+        (s(1), s(2)), (s(2), s(2)), (s(0), s(0)),
+    ] {
+        v.push(CfgSpec { default: neg(mn, mx), by_type: vec![] });
+    }
+    v.push(CfgSpec { default: Bounds { pos_min: s(1), pos_max: s(3), neg_min: s(1), neg_max: s(2) }, by_type: vec![] });
+    let one = |t: &str, b: Bounds| {
+        let (name, code) = type_code_of(t);
+        CfgSpec { default: Bounds::default(), by_type: vec![(name, code, b)] }
+    };
+    v.push(one("A", pos(s(3), None)));
+    v.push(one("A", pos(None, s(1))));
+    v.push(one("A", Bounds { pos_min: s(2), pos_max: s(2), neg_min: s(1), neg_max: s(1) }));
+    v.push(one("AAAA", Bounds { pos_max: s(0), neg_max: s(0), ..Default::default() }));
+    v.push(one("TXT", Bounds { pos_max: s(1), neg_min: s(2), ..Default::default() }));
+    v.push(one("CNAME", pos(s(3), None)));
+    v.push(one("CNAME", pos(None, s(1))));
+    v.push(one("NS", pos(s(3), None)));
+    v.push(one("NS", pos(None, s(1))));
+    v.push(one("MX", pos(None, s(1))));
+    let t = |t: &str, b: Bounds| {
+        let (name, code) = type_code_of(t);
+        (name, code, b)
+    };
+    v.push(CfgSpec { default: pos(s(1), s(3)), by_type: vec![t("A", pos(None, s(1))), t("CNAME", pos(s(2), None))] });
+    v.push(CfgSpec { default: Bounds { pos_min: s(2), neg_max: s(1), ..Default::default() }, by_type: vec![t("AAAA", Bounds::default())] });
+    v.push(CfgSpec { default: pos(None, s(1)), by_type: vec![t("CNAME", pos(s(3), None)), t("NS", pos(s(3), None))] });
+    v.push(CfgSpec { default: neg(s(2), s(2)), by_type: vec![t("TXT", neg(None, s(0))), t("A", neg(s(3), None))] });
+    v
+}
+
+// ------------------------------------------------------------------------------------------
+// operations
+
+#[derive(Clone, Copy, Debug, PartialEq, Eq, Hash)]
+enum Op {
+    Insert(u8, u8),
+    Get(u8),
+    Clear,
+    ClearQuery(u8),
+    Advance(u32),
+}
+
+fn op_json(op: &Op, env: &Env) -> Value {
+    match op {
+        Op::Insert(q, r) => json!({"op": "insert", "q": q, "r": env.shapes[*r as usize].0}),
+        Op::Get(q) => json!({"op": "get", "q": q}),
+        Op::Clear => json!({"op": "clear"}),
+        Op::ClearQuery(q) => json!({"op": "clear_query", "q": q}),
+        Op::Advance(ms) => json!({"op": "advance", "ms": ms}),
+    }
+}
+
+fn op_from_json(v: &Value, env: &Env) -> Op {
+    let q = v["q"].as_u64().unwrap_or(0) as u8;
+    match v["op"].as_str().unwrap() {
+        "insert" => {
+            let label = v["r"].as_str().unwrap();
+            let r = env.shapes.iter().position(|s| s.0 == label).expect("unknown result label");
+            Op::Insert(q, r as u8)
+        }
+        "get" => Op::Get(q),
+        "clear" => Op::Clear,
+        "clear_query" => Op::ClearQuery(q),
+        "advance" => Op::Advance(v["ms"].as_u64().unwrap() as u32),
+        other => panic!("unknown op {other}"),
+    }
+}
+
+// ------------------------------------------------------------------------------------------
+// environment = alphabets instantiated on both sides
+
+struct Env {
+    queries: Vec<QSpec>,
+    shapes: Vec<(&'static str, Shape)>,
+    results: Vec<Vec<Result<Message, NetError>>>,
+    stored: Vec<Vec<Stored>>,
+    content: Vec<Vec<Content>>,
+    /// cap for the age component of keys of entries without a defined L
+    cap_undefined_ms: u64,
+}
+
+impl Env {
+    fn new() -> Env {
+        let queries = queries();
+        let mut shapes = shapes();
+        shapes.extend(far_shapes());
+        let mut results = vec![];
+        let mut stored = vec![];
+        let mut content = vec![];
+        for q in &queries {
+            let mut rs = vec![];
+            let mut ss = vec![];
+            let mut cs = vec![];
+            for (sid, (_, sh)) in shapes.iter().enumerate() {
+                let (r, s) = build_result(sh, q, sid);
+                cs.push(content_of(&r));
+                rs.push(r);
+                ss.push(s);
+            }
+            results.push(rs);
+            stored.push(ss);
+            content.push(cs);
+        }
+        // every TTL / bound of the near alphabets is <= 7 s
+        Env { queries, shapes, results, stored, content, cap_undefined_ms: 8_000 }
+    }
+    fn shape_idx(&self, label: &str) -> u8 {
+        self.shapes.iter().position(|s| s.0 == label).unwrap_or_else(|| panic!("no shape {label}")) as u8
+    }
+
+    fn identify(&self, qi: usize, c: &Content, hint: Option<usize>) -> Option<usize> {
+        let same = |i: usize| match (&self.content[qi][i], c) {
+            (Content::Pos(a), Content::Pos(b)) => a == b,
+            (Content::Neg(a), Content::Neg(b)) => neg_eq(a, b),
+            _ => false,
+        };
+        if let Some(h) = hint {
+            if same(h) {
+                return Some(h);
+            }
+        }
+        (0..self.content[qi].len()).find(|i| same(*i))
+    }
+
+    fn observe(&self, qi: usize, res: Option<Result<Message, NetError>>, hint: Option<usize>) -> Observation {
+        match res {
+            None => Observation::Miss,
+            Some(Ok(m)) => {
+                let (z, ttls) = split_pos(&m);
+                Observation::Positive { id: self.identify(qi, &Content::Pos(z), hint), ttls }
+            }
+            Some(Err(NetError::Dns(DnsError::NoRecordsFound(nr)))) => {
+                let (z, nttl, ttls) = split_neg(&nr);
+                Observation::Negative { id: self.identify(qi, &Content::Neg(z), hint), negative_ttl: nttl, embedded: ttls }
+            }
+            Some(Err(_)) => Observation::OtherError,
+        }
+    }
+}
+
+/// One exploration instance: a configuration, the queries operated on, the op alphabet, the
+/// queries probed after every transition (the operated ones plus one foreign query).
+struct Instance {
+    grid: &'static str,
+    cfg_idx: usize,
+    cfg: CfgSpec,
+    real_cfg: TtlConfig,
+    model_cfg: Config,
+    queries: Vec<usize>,
+    probe_queries: Vec<usize>,
+    ops: Vec<Op>,
+}
+
+const PROBE_OFFSETS_MS: [u64; 12] = [0, 400, 600, 1000, 1400, 2000, 2600, 3000, 4000, 5000, 5400, 7000];
+
+struct ExecOut {
+    key: u64,
+    digest: u64,
+}
+
+fn hash_mix(h: &mut u64, v: u64) {
+    *h ^= v;
+    *h = h.wrapping_mul(0x100000001b3);
+    *h ^= *h >> 29;
+}
+
+/// Spin until the real clock has moved: moka's `invalidate_all` discards entries whose insertion
+/// timestamp is strictly smaller than the call's timestamp (nanosecond clock).
+fn tick() {
+    let t = Instant::now();
+    while Instant::now() <= t {
+        std::hint::spin_loop();
+    }
+}
+
+/// Replay `hist` on a fresh real cache and a fresh model; every get is judged. Gets at history
+/// positions >= `count_from` and the probes are counted as evaluations. Returns the canonical
+/// key of the final model state and the digest of the probe observations.
+fn execute(env: &Env, inst: &Instance, hist: &[Op], count_from: usize, probes: bool, l: &mut Local) -> ExecOut {
+    let cache = ResponseCache::new(64, inst.real_cfg.clone());
+    let mut model = Model::new(inst.model_cfg.clone());
+    let case = |upto: usize, probe: Option<(usize, u64)>| {
+        json!({
+            "cfg": inst.cfg.to_json(),
+            "history": hist[..upto].iter().map(|o| op_json(o, env)).collect::<Vec<_>>(),
+            "probe": probe.map(|(q, off)| json!({"q": q, "offset_ms": off})),
+            "probe_queries": inst.probe_queries,
+        })
+    };
+    let get = |model: &mut Model, qi: usize, at_ms: u64, count: bool, l: &mut Local, upto: usize, probe: Option<(usize, u64)>| -> u64 {
+        let res = cache.get(&env.queries[qi].query, at(at_ms));
+        let hint = model.entries.get(&qi).or_else(|| model.ghosts.get(&qi)).map(|e| e.result);
+        let obs = env.observe(qi, res, hint);
+        let verdict = model.judge_get(qi, env.queries[qi].code, at_ms, &obs, &|i| &env.stored[qi][i], true);
+        let mut d = 0xcbf29ce484222325u64;
+        match &obs {
+            Observation::Miss => hash_mix(&mut d, 1),
+            Observation::Positive { id, ttls } => {
+                hash_mix(&mut d, 2 + ((id.map(|i| i as u64 + 1).unwrap_or(0)) << 8));
+                for t in ttls {
+                    hash_mix(&mut d, *t as u64);
+                }
+            }
+            Observation::Negative { id, negative_ttl, embedded } => {
+                hash_mix(&mut d, 3 + ((id.map(|i| i as u64 + 1).unwrap_or(0)) << 8));
+                hash_mix(&mut d, negative_ttl.map(|t| t as u64 + 1).unwrap_or(0));
+                for t in embedded {
+                    hash_mix(&mut d, *t as u64);
+                }
+            }
+            Observation::OtherError => hash_mix(&mut d, 4),
+        }
+        match verdict {
+            Verdict::Ok { held, live, hit, age_vs_l, after_clear } => {
+                if count {
+                    l.eval();
+                    let class = if hit && after_clear {
+                        "obs:hit-after-clear"
+                    } else if !held {
+                        "get:absent-miss"
+                    } else if age_vs_l == 2 {
+                        if hit { "get:L-undefined-hit" } else { "get:L-undefined-miss" }
+                    } else if live {
+                        if hit { "get:live-hit" } else { "get:live-miss" }
+                    } else {
+                        "get:expired-miss"
+                    };
+                    l.outcome(class);
+                    if hit && !after_clear {
+                        if let Some(e) = model.entries.get(&qi) {
+                            // the other reading of "smallest TTL": TTLs as received
+                            if let Some(raw) = rc::lifetime_secs_raw(&inst.model_cfg, env.queries[qi].code, &env.stored[qi][e.result]) {
+                                if at_ms - e.inserted_ms > raw * 1000 {
+                                    l.outcome("obs:hit-beyond-L-of-unclamped-record-ttls");
+                                }
+                            }
+                            l.nontrivial(
+                                (inst.cfg_idx as u64) << 32 | (qi as u64) << 24 | (e.result as u64) << 8 | (age_vs_l as i64 + 2) as u64,
+                            );
+                        }
+                    } else if live {
+                        if let Some(e) = model.entries.get(&qi) {
+                            l.nontrivial(
+                                (inst.cfg_idx as u64) << 32 | (qi as u64) << 24 | (e.result as u64) << 8 | 0x80 | (age_vs_l as i64 + 2) as u64,
+                            );
+                        }
+                    }
+                }
+            }
+            Verdict::Violation(key, what) => {
+                l.violation(&key, &what, || case(upto, probe));
+            }
+        }
+        d
+    };
+
+    for (i, op) in hist.iter().enumerate() {
+        match *op {
+            Op::Insert(q, r) => {
+                let (q, r) = (q as usize, r as usize);
+                cache.insert(env.queries[q].query.clone(), env.results[q][r].clone(), at(model.now_ms));
+                model.insert(q, r, &env.stored[q][r]);
+            }
+            Op::Get(q) => {
+                let now = model.now_ms;
+                get(&mut model, q as usize, now, i >= count_from, l, i + 1, None);
+            }
+            Op::Clear => {
+                tick();
+                cache.verif_clear();
+                model.clear();
+            }
+            Op::ClearQuery(q) => {
+                cache.verif_clear_query(&env.queries[q as usize].query);
+                model.clear_query(q as usize);
+            }
+            Op::Advance(ms) => model.advance(ms as u64),
+        }
+    }
+    let mut digest = 0x9e3779b97f4a7c15u64;
+    if probes {
+        for off in PROBE_OFFSETS_MS {
+            for &qi in &inst.probe_queries {
+                let now = model.now_ms + off;
+                let d = get(&mut model, qi, now, true, l, hist.len(), Some((qi, off)));
+                hash_mix(&mut digest, d);
+            }
+        }
+    }
+    // canonical key
+    let mut key = 0u64;
+    for (slot, &qi) in inst.queries.iter().enumerate() {
+        let part = match model.entries.get(&qi) {
+            None => 0u64,
+            Some(e) => {
+                let age = model.now_ms - e.inserted_ms;
+                let cap = match rc::lifetime_secs(&inst.model_cfg, env.queries[qi].code, &env.stored[qi][e.result]) {
+                    Some(lsecs) => lsecs.saturating_mul(1000).saturating_add(1),
+                    None => env.cap_undefined_ms + 1,
+                };
+                let age = age.min(cap).min((1 << 14) - 1);
+                ((e.result as u64 + 1) << 14) | age
+            }
+        };
+        key |= part << (slot * 20);
+    }
+    ExecOut { key, digest }
+}
+
+// ------------------------------------------------------------------------------------------
+// grids
+
+struct GridSpec {
+    name: &'static str,
+    cfgs: Vec<usize>,
+    query_sets: Vec<Vec<usize>>,
+    shapes: Vec<&'static str>,
+    dts: Vec<u32>,
+    max_depth: usize,
+}
+
+fn foreign_query(qs: &[usize]) -> usize {
+    // prefer the query with the same name and another type
+    for cand in [1usize, 0, 2] {
+        if !qs.contains(&cand) {
+            return cand;
+        }
+    }
+    usize::MAX
+}
+
+fn instances(env: &Env, cfgs: &[CfgSpec], g: &GridSpec, seed: u64) -> Vec<Instance> {
+    let mut out = vec![];
+    for &ci in &g.cfgs {
+        for qs in &g.query_sets {
+            let mut ops = vec![];
+            for &q in qs {
+                for s in &g.shapes {
+                    ops.push(Op::Insert(q as u8, env.shape_idx(s)));
+                }
+            }
+            for &q in qs {
+                ops.push(Op::Get(q as u8));
+            }
+            ops.push(Op::Clear);
+            for &q in qs {
+                ops.push(Op::ClearQuery(q as u8));
+            }
+            for &d in &g.dts {
+                ops.push(Op::Advance(d));
+            }
+            // VERIF_SEED only permutes the enumeration order
+            let k = (seed % ops.len() as u64) as usize;
+            ops.rotate_left(k);
+            let mut probe_queries = qs.clone();
+            let f = foreign_query(qs);
+            if f != usize::MAX {
+                probe_queries.push(f);
+            }
+            let cfg = cfgs[ci].clone();
+            out.push(Instance {
+                grid: g.name,
+                cfg_idx: ci,
+                real_cfg: cfg.real(),
+                model_cfg: cfg.model(),
+                cfg,
+                queries: qs.clone(),
+                probe_queries,
+                ops,
+            });
+        }
+    }
+    out
+}
+
+#[derive(Clone)]
+struct Node {
+    inst: u32,
+    hist: Vec<Op>,
+}
+
+type Key = (u32, u64);
+
+struct Differential {
+    shards: Vec<Mutex<HashMap<Key, u64>>>,
+    mismatches: AtomicU64,
+    first: Mutex<Option<Value>>,
+}
+
+impl Differential {
+    fn new() -> Self {
+        Differential { shards: (0..256).map(|_| Mutex::new(HashMap::new())).collect(), mismatches: AtomicU64::new(0), first: Mutex::new(None) }
+    }
+    fn check(&self, key: Key, digest: u64, describe: impl FnOnce() -> Value) {
+        let sh = ((key.1 ^ (key.1 >> 17) ^ key.0 as u64).wrapping_mul(0x9e3779b97f4a7c15) >> 56) as usize;
+        let mut m = self.shards[sh].lock().unwrap();
+        match m.get(&key) {
+            None => {
+                m.insert(key, digest);
+            }
+            Some(d) if *d == digest => {}
+            Some(_) => {
+                drop(m);
+                if self.mismatches.fetch_add(1, Ordering::SeqCst) == 0 {
+                    *self.first.lock().unwrap() = Some(describe());
+                }
+            }
+        }
+    }
+}
+
+fn run_grid(ctx: &Ctx, env: &Env, insts: &[Instance], base_id: u32, max_depth: usize, diff: &Differential) -> vcore::BfsStats {
+    let roots: Vec<(Node, Key)> = (0..insts.len()).map(|i| (Node { inst: base_id + i as u32, hist: vec![] }, (base_id + i as u32, 0u64))).collect();
+    let selftest = ctx.quick();
+    bfs(ctx, roots, max_depth, |node, l| {
+        let inst = &insts[(node.inst - base_id) as usize];
+        let mut succ = Vec::with_capacity(inst.ops.len());
+        for (oi, op) in inst.ops.iter().enumerate() {
+            let mut h = node.hist.clone();
+            h.push(*op);
+            let count_from = h.len() - 1;
+            match catch(|| execute(env, inst, &h, count_from, true, l)) {
+                Ok(out) => {
+                    let key = (node.inst, out.key);
+                    diff.check(key, out.digest, || json!({"cfg": inst.cfg.to_json(), "history": h.iter().map(|o| op_json(o, env)).collect::<Vec<_>>()}));
+                    if selftest && oi % 8 == 0 {
+                        // determinism self-test: the same history again must observe the same
+                        let mut scratch = Local::default();
+                        let again = execute(env, inst, &h, usize::MAX, true, &mut scratch);
+                        if again.digest != out.digest || again.key != out.key {
+                            ctx.machinery_failure("nondeterminism: the same history observed differently on re-execution");
+                        }
+                    }
+                    ctx.traces_validated.fetch_add(1, Ordering::Relaxed);
+                    succ.push((Node { inst: node.inst, hist: h }, key));
+                }
+                Err(p) => {
+                    l.violation(&format!("panic:{}", vcore::short_loc(&p.loc)), &format!("cache panicked: {}", p.msg), || {
+                        json!({"cfg": inst.cfg.to_json(), "history": h.iter().map(|o| op_json(o, env)).collect::<Vec<_>>(), "probe_queries": inst.probe_queries})
+                    });
+                }
+            }
+        }
+        if node.hist.len() == 2 && l.samples.len() < 2 {
+            l.sample(json!({"grid": inst.grid, "cfg": inst.cfg.to_json(), "history": node.hist.iter().map(|o| op_json(o, env)).collect::<Vec<_>>()}));
+        }
+        succ
+    })
+}
+
+/// Matching-free enumeration of ALL op sequences of length <= depth of the instance; returns the
+/// set of canonical keys reached.
+fn free_run(ctx: &Ctx, env: &Env, inst: &Instance, depth: usize) -> (HashSet<u64>, u64) {
+    let k = inst.ops.len() as u64;
+    let keys: Mutex<HashSet<u64>> = Mutex::new(HashSet::new());
+    let mut total = 0u64;
+    for len in 0..=depth {
+        let space = k.pow(len as u32);
+        total += space;
+        ctx.par_run_init(
+            space,
+            256,
+            |_| HashSet::<u64>::new(),
+            |idx, l, local_keys| {
+                let mut h = Vec::with_capacity(len);
+                let mut i = idx;
+                for _ in 0..len {
+                    h.push(inst.ops[(i % k) as usize]);
+                    i /= k;
+                }
+                match catch(|| execute(env, inst, &h, 0, true, l)) {
+                    Ok(out) => {
+                        if local_keys.insert(out.key) {
+                            keys.lock().unwrap().insert(out.key);
+                        }
+                    }
+                    Err(p) => l.violation(&format!("panic:{}", vcore::short_loc(&p.loc)), &p.msg, || {
+                        json!({"cfg": inst.cfg.to_json(), "history": h.iter().map(|o| op_json(o, env)).collect::<Vec<_>>(), "probe_queries": inst.probe_queries})
+                    }),
+                }
+            },
+        );
+    }
+    (keys.into_inner().unwrap(), total)
+}
+
+fn main() {
+    let ctx = Ctx::from_args("C15", "model_checking");
+    let env = Env::new();
+    let cfgs = configs();
+
+    if let Err(e) = rc::self_test() {
+        vcore::machinery_exit(&format!("vref::cache self-test failed: {e}"));
+    }
+
+    if let Some((_key, case)) = ctx.replay_case() {
+        let cfg = CfgSpec::from_json(&case["cfg"]);
+        let hist: Vec<Op> = case["history"].as_array().map(|a| a.iter().map(|o| op_from_json(o, &env)).collect()).unwrap_or_default();
+        let probe_queries: Vec<usize> =
+            case["probe_queries"].as_array().map(|a| a.iter().map(|x| x.as_u64().unwrap() as usize).collect()).unwrap_or_else(|| vec![0, 1, 2]);
+        let inst = Instance {
+            grid: "replay",
+            cfg_idx: 0,
+            real_cfg: cfg.real(),
+            model_cfg: cfg.model(),
+            cfg,
+            queries: vec![0, 1, 2],
+            probe_queries,
+            ops: vec![],
+        };
+        ctx.with_local(|l| match catch(|| execute(&env, &inst, &hist, 0, true, l)) {
+            Ok(_) => {}
+            Err(p) => l.violation(&format!("panic:{}", vcore::short_loc(&p.loc)), &p.msg, || case.clone()),
+        });
+        ctx.finish(false);
+    }
+
+    ctx.set_rule(&format!(
+        "E-STATE on the real ResponseCache: BFS over histories of insert(q,r)/get(q)/clear/clear_query(q)/advance(dt), \
+         q in {{(n1,A),(n1,AAAA),(n2,TXT)}}, r from {} result shapes (positive: 1-2 records of the query type with TTL 0/1/2/5, CNAME+target, \
+         authority NS / additional A with larger and smaller TTLs, answers without a record of the query type; negative: negative_ttl \
+         None/0/1/3/5 with SOA, authorities, NS+glue; 9 transient/other errors), dt in {{0,400,600,1000,2000,4000}} ms, x {} TTL \
+         configurations (global / per-type positive and negative min/max from {{unset,0,1,2,3}}, min<=max). Grids: single (every \
+         configuration x every query, full alphabets, to the fixpoint of canonical states = histories of any length), pair and triple \
+         (sub-alphabets, fixpoint or depth bound, see coverage.grids), far (E-ENUM around the default maximum of one day). \
+         After every transition a fixed look-ahead probe sequence (12 offsets x probed queries incl. one foreign query) is executed and \
+         judged. Oracle = vref::cache (acceptance model from the statement). Non-trivial = distinct (configuration, query, result, \
+         hit/miss, age<L / =L / >L / L undefined) among judged gets on entries the model holds.",
+        shapes().len(),
+        cfgs.len()
+    ));
+    ctx.assume("vref::cache reference model (statement of C15 + documented TtlConfig semantics: override replaces default bounds; unset min=0, max=1 day)");
+    ctx.assume("L is computed from the per-type clamped record TTLs (DESIGN reading); the reading with unclamped TTLs is only logged (obs:hit-beyond-L-of-unclamped-record-ttls)");
+    ctx.assume("canonical-key argument (per query: last cacheable result, age capped just above its lifetime), tested by the digest differential and the matching-free cross-run");
+    ctx.assume("all `now` values lie 30 days ahead of the real clock, so moka's own real-time expiry never fires; moka can only forget earlier, which the oracle always allows");
+    ctx.assume("clear/clear_query semantics are not part of the statement: a hit on a cleared entry would be logged (obs:hit-after-clear), not judged");
+
+    // harness self-check: the serde-built TtlConfig means what the model configuration says
+    for c in &cfgs {
+        let real = c.real();
+        let model = c.model();
+        if !model.well_formed() {
+            vcore::machinery_exit("configuration alphabet contains min > max");
+        }
+        for (rt, code) in [(RecordType::A, 1u16), (RecordType::AAAA, 28), (RecordType::TXT, 16), (RecordType::CNAME, 5), (RecordType::NS, 2), (RecordType::MX, 15), (RecordType::SOA, 6)] {
+            let p = real.positive_response_ttl_bounds(rt).into_inner();
+            let ng = real.negative_response_ttl_bounds(rt).into_inner();
+            let (ml, mh) = model.positive(code);
+            let (nl, nh) = model.negative(code);
+            if (p.0.as_secs(), p.1.as_secs(), ng.0.as_secs(), ng.1.as_secs()) != (ml, mh, nl, nh) {
+                vcore::machinery_exit(&format!("TtlConfig built through serde disagrees with the model configuration: {}", c.to_json()));
+            }
+        }
+    }
+    ctx.set("configurations", json!(cfgs.len()));
+    ctx.set("result_shapes", json!(shapes().len()));
+
+    let quick = ctx.quick();
+    let all_cfgs: Vec<usize> = (0..cfgs.len()).collect();
+    let near_shapes: Vec<&'static str> = shapes().iter().map(|s| s.0).collect();
+    let diff = Differential::new();
+    let mut base_id = 0u32;
+    let mut all_complete = true;
+    let mut grid_stats = serde_json::Map::new();
+
+    let mut run = |g: GridSpec, base_id: &mut u32| {
+        let insts = instances(&env, &cfgs, &g, ctx.seed);
+        let st = run_grid(&ctx, &env, &insts, *base_id, g.max_depth, &diff);
+        *base_id += insts.len() as u32;
+        grid_stats.insert(
+            g.name.to_string(),
+            json!({"instances": insts.len(), "ops_per_state": insts[0].ops.len(), "states": st.states, "transitions": st.transitions,
+                   "depth_completed": st.depth_completed, "fixpoint": st.fixpoint, "depth_bound": g.max_depth, "per_depth": st.per_depth}),
+        );
+        eprintln!("[C15] grid {} instances={} states={} transitions={} depth={} fixpoint={} t={:.1}s", g.name, insts.len(), st.states, st.transitions, st.depth_completed, st.fixpoint, ctx.elapsed_s());
+        st
+    };
+
+    // G1: one query, everything else complete, to the fixpoint
+    let st = run(
+        GridSpec {
+            name: "single",
+            cfgs: all_cfgs.clone(),
+            query_sets: vec![vec![0], vec![1], vec![2]],
+            shapes: near_shapes.clone(),
+            dts: vec![0, 400, 600, 1000, 2000, 4000],
+            max_depth: 40,
+        },
+        &mut base_id,
+    );
+    if !st.fixpoint {
+        all_complete = false;
+        ctx.cap("grid single: depth bound reached before the fixpoint");
+    }
+
+    // G2: two queries (same name / different name), sub-alphabets, to the fixpoint
+    let pair_cfgs: Vec<usize> = if quick { vec![0, 2, 4, 6, 9, 11, 15, 20, 23, 27, 30, 35] } else { all_cfgs.clone() };
+    let pair_shapes: Vec<&'static str> = if quick {
+        vec!["q1", "q5", "cname1+q5", "q2+ns7+glue1", "mx2", "neg1-full", "neg3", "err-timeout"]
+    } else {
+        vec!["q0", "q1", "q5", "q1+q5", "cname1+q5", "cname5+q2", "q2+ns7+glue1", "mx2", "neg-none", "neg1-full", "neg3", "err-timeout", "err-servfail"]
+    };
+    let st = run(
+        GridSpec {
+            name: "pair",
+            cfgs: pair_cfgs,
+            query_sets: if quick { vec![vec![0, 1], vec![0, 2]] } else { vec![vec![0, 1], vec![0, 2], vec![1, 2]] },
+            shapes: pair_shapes,
+            dts: if quick { vec![400, 600, 1000, 2000] } else { vec![0, 400, 600, 1000, 2000, 4000] },
+            max_depth: 40,
+        },
+        &mut base_id,
+    );
+    if !st.fixpoint {
+        all_complete = false;
+        ctx.cap("grid pair: depth bound reached before the fixpoint");
+    }
+
+    // G3: all three queries, small alphabets; quick: depth-bounded, thorough: to the fixpoint
+    let st = run(
+        GridSpec {
+            name: "triple",
+            cfgs: if quick { vec![0, 9, 27] } else { vec![0, 2, 6, 9, 23, 27, 30, 35] },
+            query_sets: vec![vec![0, 1, 2]],
+            shapes: if quick { vec!["q1", "cname1+q5", "neg1-full", "err-timeout"] } else { vec!["q1", "q5", "cname1+q5", "neg1-full", "neg3", "err-timeout"] },
+            dts: if quick { vec![600, 1000, 2000] } else { vec![400, 600, 1000, 2000] },
+            max_depth: if quick { 6 } else { 40 },
+        },
+        &mut base_id,
+    );
+    if !quick && !st.fixpoint {
+        all_complete = false;
+        ctx.cap("grid triple: depth bound reached before the fixpoint");
+    }
+
+    // cross-run: matching-free enumeration of a small grid vs BFS with matching
+    {
+        let g = GridSpec {
+            name: "cross",
+            cfgs: vec![0, 9, 27],
+            query_sets: vec![vec![0]],
+            shapes: vec!["q1", "q1+q5", "cname1+q5", "neg1-full", "err-timeout"],
+            dts: vec![400, 1000, 2000],
+            max_depth: if quick { 4 } else { 5 },
+        };
+        let insts = instances(&env, &cfgs, &g, ctx.seed);
+        let mut free_states = 0u64;
+        let mut free_histories = 0u64;
+        for inst in &insts {
+            let (keys, total) = free_run(&ctx, &env, inst, g.max_depth);
+            free_states += keys.len() as u64;
+            free_histories += total;
+        }
+        let st = run_grid(&ctx, &env, &insts, base_id, g.max_depth, &diff);
+        base_id += insts.len() as u32;
+        ctx.set("cross_run", json!({"histories_without_matching": free_histories, "keys_without_matching": free_states, "bfs_states": st.states, "depth": g.max_depth}));
+        eprintln!("[C15] cross-run histories={} keys={} bfs_states={} t={:.1}s", free_histories, free_states, st.states, ctx.elapsed_s());
+        if free_states != st.states {
+            ctx.machinery_failure(&format!("cross-run: matching-free enumeration reached {free_states} keys, BFS with matching {}", st.states));
+        }
+    }
+    let _ = base_id;
+
+    // far grid (E-ENUM): the documented default maximum of one day and u32 limits
+    {
+        let far: Vec<&'static str> = far_shapes().iter().map(|s| s.0).collect();
+        let far_cfgs = vec![
+            CfgSpec { default: Bounds::default(), by_type: vec![] },
+            CfgSpec { default: Bounds { pos_max: Some(200_000), neg_max: Some(200_000), ..Default::default() }, by_type: vec![] },
+        ];
+        let advances: [u32; 9] = [0, 86_398_600, 86_399_000, 86_400_000, 86_400_400, 86_401_000, 199_999_600, 200_000_000, 200_000_400];
+        let mut cases = vec![];
+        for ci in 0..far_cfgs.len() {
+            for q in 0..3u8 {
+                for s in &far {
+                    for a in advances {
+                        cases.push((ci, q, env.shape_idx(s), a));
+                    }
+                }
+            }
+        }
+        let far_insts: Vec<Instance> = far_cfgs
+            .iter()
+            .enumerate()
+            .map(|(i, c)| Instance {
+                grid: "far",
+                cfg_idx: 1000 + i,
+                real_cfg: c.real(),
+                model_cfg: c.model(),
+                cfg: c.clone(),
+                queries: vec![0, 1, 2],
+                probe_queries: vec![0, 1, 2],
+                ops: vec![],
+            })
+            .collect();
+        ctx.set("far_grid_cases", json!(cases.len()));
+        ctx.par_run(cases.len() as u64, 8, |i, l| {
+            let (ci, q, r, a) = cases[i as usize];
+            let hist = vec![Op::Insert(q, r), Op::Advance(a), Op::Get(q)];
+            if let Err(p) = catch(|| execute(&env, &far_insts[ci], &hist, 0, true, l)) {
+                l.violation(&format!("panic:{}", vcore::short_loc(&p.loc)), &p.msg, || {
+                    json!({"cfg": far_insts[ci].cfg.to_json(), "history": hist.iter().map(|o| op_json(o, &env)).collect::<Vec<_>>(), "probe_queries": [0, 1, 2]})
+                });
+            }
+        });
+    }
+
+    // observation only: min > max is outside the statement (Duration::clamp / u32::clamp assert)
+    ctx.with_local(|l| {
+        for c in [
+            CfgSpec { default: pos(Some(3), Some(1)), by_type: vec![] },
+            CfgSpec { default: neg(Some(3), Some(1)), by_type: vec![] },
+            CfgSpec { default: pos(Some(90_000), None), by_type: vec![] },
+        ] {
+            for r in ["q2", "neg1-full", "neg-none"] {
+                let cache = ResponseCache::new(8, c.real());
+                let res = env.results[0][env.shape_idx(r) as usize].clone();
+                let q = env.queries[0].query.clone();
+                match catch(|| cache.insert(q, res, at(0))) {
+                    Ok(()) => l.outcome("obs:min>max:insert-returns"),
+                    Err(_) => l.outcome("obs:min>max:insert-panics(not judged)"),
+                }
+            }
+        }
+    });
+
+    ctx.set("grids", Value::Object(grid_stats));
+    let mism = diff.mismatches.load(Ordering::SeqCst);
+    ctx.set("differential_mismatches", json!(mism));
+    if mism > 0 {
+        let first = diff.first.lock().unwrap().clone();
+        eprintln!("[C15] differential: {mism} same-key/different-history mismatches, first: {}", first.unwrap_or(Value::Null));
+        ctx.machinery_failure("same-key/different-history differential failed: the canonical key does not determine the observable future");
+    }
+
+    // vacuity guards
+    let hits = ctx.outcome_count("get:live-hit");
+    let misses = ctx.outcome_count("get:live-miss");
+    ctx.set("live_hit_fraction", json!(if hits + misses > 0 { hits as f64 / (hits + misses) as f64 } else { 0.0 }));
+    if hits == 0 || (hits as f64) < 0.30 * (hits + misses) as f64 {
+        ctx.machinery_failure(&format!("vacuous run: only {hits} of {} gets on live entries hit", hits + misses));
+    }
+    if ctx.outcome_count("get:expired-miss") == 0 || ctx.outcome_count("get:absent-miss") == 0 {
+        ctx.machinery_failure("vacuous run: no get on an expired / absent entry");
+    }
+    ctx.finish(all_complete);
+}
